@@ -75,7 +75,8 @@ Qed.
 Lemma members_modes ub ts : forall pending, forallb wf_member ts = true ->
   members_of Debug ub ts pending = members_of Release ub ts pending.
 Proof.
-  induction ts as [|t ts IH]; intros pending H; cbn [members_of]; [reflexivity|].
+  unfold members_of.
+  induction ts as [|t ts IH]; intros pending H; cbn [members_of_gen]; [reflexivity|].
   cbn [forallb] in H. apply andb_prop in H. destruct H as [H1 H2].
   destruct (is_rule "COMMENT" t); [now apply IH|].
   destruct (is_rule "const" t || is_rule "function" t || is_rule "error" t); [|reflexivity].
@@ -186,7 +187,7 @@ Lemma member_debug ub doc t : not_ub (member_of Debug ub doc t).
 Proof. unfold member_of. nub. Qed.
 #[export] Hint Resolve member_debug : nubdb.
 Lemma members_debug ub ts : forall p, not_ub (members_of Debug ub ts p).
-Proof. induction ts as [|t ts IH]; intro p; cbn [members_of]; nub. Qed.
+Proof. unfold members_of. induction ts as [|t ts IH]; intro p; cbn [members_of_gen]; nub. Qed.
 #[export] Hint Resolve members_debug : nubdb.
 Lemma iface_debug ub t : not_ub (iface_of Debug ub t).
 Proof. unfold iface_of. nub. Qed.
